@@ -11,19 +11,34 @@ import time
 
 ap = argparse.ArgumentParser()
 ap.add_argument('--runs', type=int)
+ap.add_argument('--scratch', action='store_true',
+                help='apply the patches in a temporary worktree of /repo HEAD '
+                'under /tmp and leave /repo alone')
 ap.add_argument('names', nargs='*')
 args = ap.parse_args()
+REPO = '/repo'
+ENV = dict(os.environ)
+OUTDIR = '/verif'
+if args.scratch:
+    import tempfile
+    REPO = tempfile.mkdtemp(prefix='benign-wt-', dir='/tmp')
+    os.rmdir(REPO)
+    subprocess.run(['git', '-C', '/repo', 'worktree', 'add', '--detach', '-q',
+                    REPO, 'HEAD'], check=True)
+    OUTDIR = tempfile.mkdtemp(prefix='benign-out-', dir='/tmp')
+    ENV['VERIF_REPO'] = REPO
+    ENV['VERIF_OUT'] = OUTDIR
 dirs = sorted(glob.glob('/verif/benign/*/'))
 if args.names:
     dirs = [d for d in dirs if os.path.basename(d.rstrip('/')) in args.names]
-if subprocess.run(['git', '-C', '/repo', 'status', '--porcelain', '-uno'],
+if subprocess.run(['git', '-C', REPO, 'status', '--porcelain', '-uno'],
                   capture_output=True, text=True).stdout.strip():
     sys.exit('/repo has local modifications; refusing to run')
 bad = 0
 total = 0
 for d in dirs:
     name = os.path.basename(d.rstrip('/'))
-    r = subprocess.run(['git', '-C', '/repo', 'apply', d + 'patch.diff'],
+    r = subprocess.run(['git', '-C', REPO, 'apply', d + 'patch.diff'],
                        capture_output=True, text=True)
     if r.returncode != 0:
         print(name, 'PATCH DOES NOT APPLY', r.stderr[:200])
@@ -35,7 +50,7 @@ for d in dirs:
                 cmd += ['--runs', str(args.runs)]
             t0 = time.time()
             p = subprocess.run(cmd, capture_output=True, text=True,
-                               cwd='/verif')
+                               cwd='/verif', env=ENV)
             total += 1
             lines = [ln for ln in p.stdout.split('\n')
                      if ln.startswith(('violation', 'HARNESS', 'INCONCL'))]
@@ -46,7 +61,12 @@ for d in dirs:
                 name, cid, p.returncode, time.time() - t0, flag,
                 ' | '.join(ln[:200] for ln in lines[:3])))
     finally:
-        subprocess.run(['git', '-C', '/repo', 'checkout', '--', '.'])
-        for f in glob.glob('/verif/replay/*.json'):
+        subprocess.run(['git', '-C', REPO, 'checkout', '--', '.'])
+        for f in glob.glob(OUTDIR + '/replay/*.json'):
             os.remove(f)
+if args.scratch:
+    import shutil
+    subprocess.run(['git', '-C', '/repo', 'worktree', 'remove', '--force',
+                    REPO])
+    shutil.rmtree(OUTDIR, ignore_errors=True)
 print('{} alarms in {} check runs'.format(bad, total))
